@@ -267,3 +267,41 @@ def write_cfg(path: str, *, spec: str | None = None, init: str | None = None, ne
     out.append(f"CHECK_DEADLOCK {'TRUE' if check_deadlock else 'FALSE'}")
     with open(path, "w") as f:
         f.write("\n".join(out) + "\n")
+
+
+def extract_printed(output: str, tag: str):
+    """All values printed with PrintT(<<"tag", ...>>), robust to TLC's line wrapping of long
+    tuples and to interleaving at line granularity: balanced-bracket scan from each `<<"tag"`."""
+    out = []
+    pat = re.compile(r'<<\s*"' + re.escape(tag) + '"')
+    i = 0
+    n = len(output)
+    while True:
+        m = pat.search(output, i)
+        if m is None:
+            return out
+        i = m.start()
+        depth, j, instr = 0, i, False
+        while j < n:
+            c = output[j]
+            if instr:
+                if c == "\\":
+                    j += 1
+                elif c == '"':
+                    instr = False
+            elif c == '"':
+                instr = True
+            elif output.startswith("<<", j):
+                depth += 1
+                j += 1
+            elif output.startswith(">>", j):
+                depth -= 1
+                j += 1
+                if depth == 0:
+                    break
+            j += 1
+        try:
+            out.append(tlaval.parse(output[i:j + 1]))
+        except Exception:
+            pass
+        i = j + 1
